@@ -590,12 +590,22 @@ def is_real(p):
     return True
 
 
+POSITIVE = {}      # key -> reason: polynomials positive by a stated *precondition* of the contract being checked
+
+
+def assume_pos(p, reason):
+    """Register p > 0 as a precondition (e.g. a rotated Born probability of a PSD input state)."""
+    POSITIVE[to_P(p).key()] = reason
+
+
 def is_pos(p, strict=True):
     """Syntactic sign analysis: every term has a positive coefficient and is a
     product of positive atoms and even powers of real atoms.  With strict=True at
     least one term must be strictly positive (a product of strictly positive atoms)."""
     if not p.t:
         return not strict
+    if POSITIVE and len(p.t) > 1 and p.key() in POSITIVE:
+        return True
     some_strict = False
     for m, c in p.t.items():
         if c < 0:
@@ -687,7 +697,8 @@ def inv(p):
 
 def _inv_atom(u):
     r = is_real(u)
-    return _mk("Inv", (u.key(),), args=(u,), pos=(r and is_pos(u)), real=r)
+    # 1/u exists only where u != 0 (side condition of the atom), so a syntactically non-negative u makes 1/u positive
+    return _mk("Inv", (u.key(),), args=(u,), pos=(r and is_pos(u, strict=False)), real=r)
 
 
 def sqrt(p):
@@ -942,6 +953,16 @@ def log(p):
                 if c != 1:
                     out = out + _lg_atom(P.const(c))
                 return out
+    if len(p.t) > 1:
+        cont = _pos_content(p)
+        if cont is not None:
+            m0 = P({cont: 1})
+            cd = dict(cont)
+            rest = {}
+            for m, c in p.t.items():     # strip the common factor monomial-wise (exact)
+                mm = tuple((a, e - cd.get(a, 0)) for a, e in m if e - cd.get(a, 0) != 0)
+                rest[mm] = c
+            return log(m0) + log(P(rest))
     if not is_pos(p):
         q = clear_inv(p, positive_only=True)
         if q is None or not is_pos(q):
@@ -952,6 +973,22 @@ def log(p):
             else:
                 raise Unmodelled("log of a value not provably positive: %s" % p.short())
     return _lg_atom(p)
+
+
+def _pos_content(p):
+    """Common monomial factor of all terms made of strictly positive atoms (eh, positive UF, Inv of a positive
+    argument), or None.  log(c * q) = log c + log q keeps logs of normalised probabilities canonical."""
+    common = None
+    for m in p.t:
+        d = {a: e for a, e in m if _ATOMS[a].pos and (_ATOMS[a].invertible or _ATOMS[a].kind == "Inv")}
+        if common is None:
+            common = d
+        else:
+            common = {a: (min(e, d[a]) if e > 0 else max(e, d[a])) for a, e in common.items()
+                      if a in d and (e > 0) == (d[a] > 0)}
+        if not common:
+            return None
+    return tuple(sorted(common.items())) if common else None
 
 
 def _lg_atom(u):
